@@ -23,6 +23,7 @@ import (
 	"fmt"
 	"io"
 	"log/slog"
+	"math"
 	"math/rand"
 	"os"
 	"os/exec"
@@ -484,6 +485,12 @@ func c26Decode(rpc c26Rpc, mode, hx string) (proto.Message, error) {
 
 // c26Call invokes the handler and classifies what the caller sees.
 func c26Call(st *c26State, rpc c26Rpc, msg proto.Message) (class string, recovered int64) {
+	return c26CallT(st, rpc, msg, c26CallTimeout, c26CallGrace)
+}
+
+// c26CallT: the client's context ends after `timeout` (as a client deadline does); a handler that is not back `grace`
+// after that is hung — it ignores the end of its caller's context, or it is stuck.
+func c26CallT(st *c26State, rpc c26Rpc, msg proto.Message, timeout, grace time.Duration) (class string, recovered int64) {
 	p0 := atomic.LoadInt64(&c26Panics)
 	gw := reflect.ValueOf(*st.rig.GW)
 	var out []reflect.Value
@@ -498,7 +505,9 @@ func c26Call(st *c26State, rpc c26Rpc, msg proto.Message) (class string, recover
 		}()
 		switch rpc.kind {
 		case "unary":
-			out = gw.MethodByName(rpc.name).Call([]reflect.Value{reflect.ValueOf(context.Background()), reflect.ValueOf(msg)})
+			ctx, cancel := context.WithTimeout(context.Background(), timeout)
+			defer cancel()
+			out = gw.MethodByName(rpc.name).Call([]reflect.Value{reflect.ValueOf(ctx), reflect.ValueOf(msg)})
 		case "sstream":
 			ctx, cancel := context.WithCancel(context.Background())
 			if strings.HasPrefix(rpc.name, "Subscribe") {
@@ -514,10 +523,10 @@ func c26Call(st *c26State, rpc c26Rpc, msg proto.Message) (class string, recover
 	}()
 	select {
 	case <-finished:
-	case <-time.After(c26CallTimeout):
+	case <-time.After(timeout):
 		select {
-		case <-finished: // slow, not stuck
-		case <-time.After(c26CallGrace):
+		case <-finished: // slow, or it waited for its context to end: not stuck
+		case <-time.After(grace):
 			return "hang", atomic.LoadInt64(&c26Panics) - p0
 		}
 	}
@@ -548,6 +557,40 @@ func c26Call(st *c26State, rpc c26Rpc, msg proto.Message) (class string, recover
 		return "nilnil", recovered // the stream handler returned nil after a recovered panic
 	}
 	return "resp", recovered
+}
+
+// A granted business lock is given back right away with the ID the response carries, so that no request of the case
+// waits for an earlier one (a lock lives until its TTL, which may be 292 years).  A lock that is already gone then —
+// although more than ten seconds of TTL were asked for — was not held for its TTL: class `lostlock`.
+func c26LockRelease(st *c26State, req *hydrapb.LockRequest, class string) string {
+	if class != "resp" || !c26LastResp.IsValid() || c26LastResp.IsNil() {
+		return class
+	}
+	r, ok := c26LastResp.Interface().(*hydrapb.LockResponse)
+	if !ok {
+		return class
+	}
+	_, err := st.rig.GW.Unlock(context.Background(), &hydrapb.UnlockRequest{Key: req.GetKey(), LockID: r.GetLockID()})
+	if err != nil && req.GetTTL() > 10000 {
+		return "lostlock"
+	}
+	return class
+}
+
+// mode `c`: the key is held by someone else (TTL ten minutes) when the request arrives with a client deadline of 400 ms.
+// Well defined: the call comes back with an error once its context has ended.  Afterwards the holder unlocks.
+func c26LockContended(st *c26State, rpc c26Rpc, req *hydrapb.LockRequest) (string, int64) {
+	hold, err := st.rig.GW.Lock(context.Background(), &hydrapb.LockRequest{Key: req.GetKey(), TTL: 600000})
+	if err != nil || hold == nil {
+		return "rig-error:holder-lock-failed", 0
+	}
+	class, rec := c26CallT(st, rpc, req, 400*time.Millisecond, 5*time.Second)
+	_, _ = st.rig.GW.Unlock(context.Background(), &hydrapb.UnlockRequest{Key: req.GetKey(), LockID: hold.GetLockID()})
+	if class == "resp" {
+		// granted although the key was held: exclusivity is C14's subject; give it back and report what was seen
+		class = c26LockRelease(st, req, class)
+	}
+	return class, rec
 }
 
 func c26NoFields(t reflect.Type) bool {
@@ -614,7 +657,17 @@ func c26Do(st *c26State, rpc c26Rpc, msg proto.Message) string {
 	if c26Mode == "p" {
 		atomic.StoreInt32(&c26InjectPanic, 1)
 	}
-	class, rec := c26Call(st, rpc, msg)
+	var class string
+	var rec int64
+	switch {
+	case rpc.name == "Lock" && c26Mode == "c":
+		class, rec = c26LockContended(st, rpc, msg.(*hydrapb.LockRequest))
+	case rpc.name == "Lock":
+		class, rec = c26Call(st, rpc, msg)
+		class = c26LockRelease(st, msg.(*hydrapb.LockRequest), class)
+	default:
+		class, rec = c26Call(st, rpc, msg)
+	}
 	atomic.StoreInt32(&c26InjectPanic, 0)
 	if c26Mode == "f" && class != "hang" {
 		// mode `f`: the swamps stay open, what is waiting for the writer is flushed to disk (as the write-interval
@@ -1309,6 +1362,12 @@ func c26Directed(rpc c26Rpc) []c26Mut {
 			{&hydrapb.Uint32SliceDeleteRequest{IslandID: c26Island, SwampName: S, KeySlicePairs: []*hydrapb.KeySlicePair{{Key: "s1", Values: []uint32{1}}}}, "Key", "directed"},
 			{&hydrapb.Uint32SliceDeleteRequest{IslandID: c26Island, SwampName: S, KeySlicePairs: []*hydrapb.KeySlicePair{{Key: "sl", Values: []uint32{1, 2, 3}}}}, "Values", "directed"},
 		}
+	case "Lock":
+		var out []c26Mut
+		for _, t := range []int64{0, 1, 1000, 1001, math.MaxInt64, -1, math.MinInt64, 9223372036854, 9223372036855} {
+			out = append(out, c26Mut{&hydrapb.LockRequest{Key: fmt.Sprintf("lk-ttl-%d", t), TTL: t}, fmt.Sprintf("TTL=%d:expect=resp", t), "directed"})
+		}
+		return out
 	case "Uint32SliceSize":
 		return []c26Mut{{&hydrapb.Uint32SliceSizeRequest{IslandID: c26Island, SwampName: "c26/none/missing", Key: "sl"}, "SwampName", "directed"}}
 	case "Uint32SliceIsValueExist":
@@ -1461,6 +1520,9 @@ func c26EntryShape(m protoreflect.Message, mode string) string {
 func c26Shape(msg proto.Message, mode string) string {
 	m := msg.ProtoReflect()
 	out := "top=" + c26EntryShape(m, mode)
+	if mode == "c" {
+		out += ",lh1" // the lock key is held by another caller when the request arrives
+	}
 	fds := m.Descriptor().Fields()
 	for _, n := range []string{"Swamps", "Requests", "Queries", "Targets"} {
 		if fd := fds.ByName(protoreflect.Name(n)); fd != nil && fd.IsList() && fd.Kind() == protoreflect.MessageKind {
@@ -1559,6 +1621,11 @@ func c26Gen(rng *rand.Rand, tier string, w *bufio.Writer) {
 			}
 			for _, d := range c26Directed(rpc) {
 				c26Emit(w, rpc, d.msg, "w", d.label)
+			}
+			if rpc.name == "Lock" {
+				// the key is held by another caller: the request must come back once its own context has ended
+				c26Emit(w, rpc, &hydrapb.LockRequest{Key: "lk-contended", TTL: 5000}, "c", "contended:expect=err")
+				c26Emit(w, rpc, &hydrapb.LockRequest{Key: "lk-contended-max", TTL: math.MaxInt64}, "c", "contended:expect=err")
 			}
 			dbl := doubles
 			if vi > 0 {
